@@ -656,6 +656,31 @@ fn enum_space() -> &'static EnumSpace {
     })
 }
 
+/// Debug helper: the mutated bytes of an enumeration point (source or package).
+pub fn dump_point(point: u64) -> (String, Vec<u8>) {
+    let sp = enum_space();
+    let fi = match sp.starts.binary_search(&point) {
+        Ok(i) => i,
+        Err(i) => i - 1,
+    };
+    let file = &sp.files[fi];
+    let local = point - sp.starts[fi];
+    let len = file.len as u64;
+    let (kind, off, bit) = if local < len {
+        ("truncate", local as usize, 0u8)
+    } else {
+        let r = local - len;
+        ("bitflip", (r / 8) as usize, (r % 8) as u8)
+    };
+    let case = &sp.cases[file.case];
+    let mut b = match &file.target {
+        Target::Source => case.source.clone().into_bytes(),
+        Target::Package(pi) => case.packages[*pi].2.as_ref().clone(),
+    };
+    mutate(&mut b, kind, off, bit);
+    (format!("{} {:?} {kind}@{off}.{bit}", case.label, file.target), b)
+}
+
 /// Debug helper: the enumeration point of (case label, target, kind, offset, bit).
 pub fn find_point(label: &str, pkg: Option<usize>, kind: &str, off: u64, bit: u64) -> Option<u64> {
     let sp = enum_space();
